@@ -143,6 +143,17 @@ func (v *ControllerVisitor) visitController(controllerNode *ast.TypeSpec) (metad
 
 	// Go over all enumerated source files and look for receivers for the controller
 	for _, file := range v.context.ArbitrationProvider.GetAllSourceFiles() {
+		// A struct's receivers can only be declared in the struct's own package.
+		// Matching by name alone would attach same-named controllers' routes from other packages
+		filePkg, err := v.context.ArbitrationProvider.Pkg().GetPackageForFile(file)
+		if err != nil {
+			return controllerMeta, v.frozenError(err)
+		}
+
+		if filePkg == nil || filePkg.PkgPath != controllerMeta.Struct.PkgPath {
+			continue
+		}
+
 		for _, declaration := range file.Decls {
 			switch funcDeclaration := declaration.(type) {
 			case *ast.FuncDecl:
